@@ -37,6 +37,12 @@ Theorem C17_dgram_whole_lines : forall sz arrivals,
   forall i, project i (dgram_tagged arrivals) = concat (map frame (project i arrivals)).
 Proof. exact dgram_whole_lines. Qed.
 
+(* a zero-length datagram, wherever it arrives, delivers nothing and changes
+   nothing of what the stream delivers (in particular it does not end it) *)
+Theorem C17_empty_datagram_harmless : forall sz a i b,
+  1 <= sz -> dgram_lines sz (a ++ (i, []) :: b) = dgram_lines sz (a ++ b).
+Proof. exact empty_datagram_harmless. Qed.
+
 (* the channel is closed only after the flush, and the flush only happens once
    the writer has closed or the stream has been cancelled; nothing follows *)
 Theorem C17_ends_after_flush : forall es,
@@ -96,6 +102,7 @@ Qed.
 Print Assumptions C17_per_connection.
 Print Assumptions C17_never_merged.
 Print Assumptions C17_dgram_whole_lines.
+Print Assumptions C17_empty_datagram_harmless.
 Print Assumptions C17_ends_after_flush.
 Print Assumptions C17_nothing_after_close.
 Print Assumptions C17_cancelled_socket_shuts_down.
